@@ -455,6 +455,28 @@ def check(ctx):
     ctx.rule("R11", "the unit setting consulted is THIS spa's: a temperature item finds its unit through the structure's item dictionary on every read and write, so that dictionary must be the structure's own - no driver class keeps a class-level container that its methods fill through `self` (one object for every structure in the process: spa A's temperatures would be converted with spa B's unit) (C10.R8 borrowed)")
     from .c10 import shared_class_state as _scs14
     _scs14(ctx.borrowed("R11", "C10"), repo, "R8", only_under="/driver/")
+    ctx.rule("R12", "the items the heater consults exist under the names it uses: no item-key constant of the constants class (KEY_*) differs from the key of a published item only in the case of its letters (keys are matched letter for letter; a constant no table knows at all is an optional item) - a case slip makes the library treat the item as absent on EVERY pack: the cool-down flag is never consulted and the operation falls back to temperatures")
+    from ..packs import tables as _tables14
+    _T14 = _tables14(repo)
+    _all14 = set()
+    for _stem, _m in _T14.modules.items():
+        _all14 |= set(_m.keys())
+    _gc14 = repo.cls("GeckoConstants")
+    _n14 = 0
+    for _k, _v in _gc14.consts.items():
+        if not _k.startswith("KEY_"):
+            continue
+        _val = repo.try_fold(_v, _gc14.mod, _gc14)
+        if not isinstance(_val, str):
+            continue
+        _n14 += 1
+        _near = sorted(x for x in _all14 if x.lower() == _val.lower())
+        # a key no table publishes at all is an item this release's tables do not have (an optional device); a key that
+        # differs from a published one only in the case of its letters is that item, misspelt: lookups are case-sensitive
+        ctx.ob("R12", f"GeckoConstants.{_k}::names-a-published-item", _val in _all14 or not _near,
+               f"GeckoConstants.{_k} = {_val!r} is the key of no item in any shipped table (nearest: {sorted(x for x in _all14 if x.lower() == _val.lower())[:2]}): `{_val!r} in accessors` is false on every pack, the item is never consulted",
+               _gc14.loc if hasattr(_gc14, "loc") else None)
+    ctx.floor("R12", "item-key constants compared with the shipped tables", _n14, 20)
     ctx.rule("R7", "what the heater presents is the converted reading itself: current / target / real target temperature of a GeckoWaterHeater built by its own constructor equal, bit for bit, the value its temperature item decodes (raw/18 is not a whole tenth for 17 words out of 18: any rounding on the way makes write-what-you-read land on another word)")
     interp = Interp(repo)
     n_pt = 0
